@@ -529,6 +529,8 @@ class C03(Check):
         edge = [bytes((i * 13) & 0xFF for i in range(n)) for n in (65535, 65536, 65537, 131072, 200_001)]
         for data in [SMALL, medium] + edge:
             for how in PIECES:
+                if how in ("1", "7") and len(data) > 70000 and tier == "quick":
+                    continue            # hundreds of thousands of one-byte writes: thorough only
                 yield self.mk("GET", [handler(act=(200, H(1), (data, False, ("piecewise", how, 0))))])
             yield self.mk("GET", [handler(act=(200, H(1), (data, False, ("pipe", None, 0))))])
             yield self.mk("POST", [handler(act=(404, H(2), (data, False, ("socketpair", None, 0))))])
